@@ -1007,7 +1007,15 @@ class Server:
                     if isinstance(result, bool):
                         if not result:
                             if not response_writer.done():
-                                await response_queue.join()
+                                # peer which does not read its replies is
+                                # waited for as long as it may be silent
+                                try:
+                                    await asyncio.wait_for(
+                                        response_queue.join(),
+                                        self.idle_timeout,
+                                    )
+                                except asyncio.TimeoutError:
+                                    pass
                             return
                     # this is parse_command result
                     elif isinstance(result, tuple):
